@@ -467,14 +467,41 @@ fn random_case(rng: &mut Rng) -> Case {
 // Running and checking
 // ---------------------------------------------------------------------------
 
-fn script_of(vhelper: &str, plan_path: &str, c: &Case) -> String {
+fn script_of(vhelper: &str, plan_path: &str, c: &Case, style: usize) -> String {
     let mut s = String::new();
     s.push_str(&format!("make c get command({})\nc.arg(\"emit\")\nc.arg({})\n", lit(vhelper), lit(plan_path)));
     s.push_str(&format!("c.stdout_{}()\nc.stderr_{}()\nc.stdin_null()\n", c.po.name(), c.pe.name()));
     if let Some(t) = c.timeout_ms {
         s.push_str(&format!("c.timeout_ms({t})\n"));
     }
-    s.push_str("make r get c.run()\nshout(r.success())\nshout(r.exit_code())\nshout(typeof(r.stdout()))\nshout(r.stdout())\nshout(typeof(r.stderr()))\nshout(r.stderr())\n");
+    // Where the result is produced and how it reaches the six `shout`s varies: at top level, as the
+    // return value of a function, as strings extracted inside a function and returned in an array,
+    // or pushed into an outer array from a loop body; unrelated string work follows before the
+    // result is looked at, so that a result left in a frame that has ended would be overwritten.
+    const CHURN: &str = "make zz_junk get []\nmake zz_j get 0\njasi (zz_j small pass 24) start\n    zz_junk.push(\"churn-\" add zz_j add \"-ZZZZZZZZZZZZZZZZZZZZZZZZZZZZZZZZZZZZZZZZ\")\n    zz_j get zz_j add 1\nend\n";
+    const SHOW_R: &str = "shout(r.success())\nshout(r.exit_code())\nshout(typeof(r.stdout()))\nshout(r.stdout())\nshout(typeof(r.stderr()))\nshout(r.stderr())\n";
+    match style {
+        1 => {
+            s.push_str("do zz_go() start\n    return c.run()\nend\nmake r get zz_go()\n");
+            s.push_str(CHURN);
+            s.push_str(SHOW_R);
+        }
+        2 => {
+            s.push_str("do zz_go() start\n    make r0 get c.run()\n    return [r0.success(), r0.exit_code(), r0.stdout(), r0.stderr()]\nend\nmake a get zz_go()\n");
+            s.push_str(CHURN);
+            s.push_str("shout(a[0])\nshout(a[1])\nshout(typeof(a[2]))\nshout(a[2])\nshout(typeof(a[3]))\nshout(a[3])\n");
+        }
+        3 => {
+            s.push_str("make rs get []\nmake zz_i get 0\njasi (zz_i small pass 1) start\n    zz_i get zz_i add 1\n    rs.push(c.run())\nend\n");
+            s.push_str(CHURN);
+            s.push_str("make r get rs[0]\n");
+            s.push_str(SHOW_R);
+        }
+        _ => {
+            s.push_str("make r get c.run()\n");
+            s.push_str(SHOW_R);
+        }
+    }
     s
 }
 
@@ -558,7 +585,8 @@ fn run_case(ctx: &mut Ctx, e: &Endings, vhelper: &str, scratch: &str, stage: &st
         return;
     }
     let _ = std::fs::remove_file(&pid_path);
-    let src = script_of(vhelper, &plan_path, &case);
+    let style = Rng::new(util::case_seed(ctx.seed, &format!("proccap-style-{stage}"), idx)).weighted(&[4, 2, 2, 2]);
+    let src = script_of(vhelper, &plan_path, &case, style);
     let mut caps = ProcessCaps::defaults();
     caps.max_capture_bytes_per_stream = case.cap;
     caps.wait_poll_ms = case.poll_ms;
